@@ -2,6 +2,7 @@ import Gimli.Lemmas.Index
 import Gimli.Lemmas.Aranges
 import Gimli.Lemmas.Package
 import Gimli.Lemmas.Names
+import Gimli.Lemmas.NamesEntries
 import Gimli.Lemmas.Pub
 import Gimli.Model.Loader
 /-!
@@ -73,6 +74,30 @@ theorem index_find_iff_present (k : Nat) (kvs : List (Nat × Nat))
     constructor
     · intro h row hm; exact h row ((hiff row).mpr hm)
     · intro h row hf; exact h row ((hiff row).mp hf)
+
+/-- **The same, stated on the bytes of a `.debug_cu_index` / `.debug_tu_index` section.**  If the
+section is a 16-byte header followed by the signatures and then the row numbers of the slot table
+built from `kvs` (signatures `< 2^64`, rows `< 2^32`), and `UnitIndex::parse` accepts it with
+`slot_count = 2^k`, then `find` on the parsed index is the linear scan of `kvs`. -/
+theorem index_find_on_bytes (k : Nat) (kvs : List (Nat × Nat))
+    (hnz : ∀ kv, kv ∈ kvs → kv.1 ≠ 0 ∧ kv.1 < 2 ^ 64 ∧ kv.2 < 2 ^ 32)
+    (hdist : kvs.Pairwise (fun a b => a.1 ≠ b.1)) (hroom : kvs.length ≤ 2 ^ k) :
+    ∃ t, build k kvs = some t ∧
+      ∀ (e : Endian) (hdr tail input : Bytes) (ix : UnitIndex), hdr.length = 16 →
+        input = hdr ++ encIds e t ++ encRows e t ++ tail → Index.parse e input = .ok ix →
+        ix.slotCount = 2 ^ k → ∀ id, id ≠ 0 → find e ix id = scan kvs id := by
+  obtain ⟨t, ht, hfind⟩ := index_find_iff_present k kvs (fun kv h => (hnz kv h).1) hdist hroom
+  refine ⟨t, ht, ?_⟩
+  intro e hdr tail input ix hhdr hin hp hslots id hid
+  obtain ⟨hlen, hsl⟩ := buildFrom_slots k kvs (emptyTable k) t (by simp [emptyTable]) ht
+  have hb : ∀ kv, kv ∈ t → kv.1 < 2 ^ 64 ∧ kv.2 < 2 ^ 32 := by
+    intro kv hkv
+    obtain ⟨q, hq, hkq⟩ := List.getElem_of_mem hkv
+    have hs : slot t q = kv := by rw [slot_eq_getElem t q hq, hkq]
+    rcases hsl q with h0 | hm
+    · rw [hs, emptyTable, slot_replicate] at h0; rw [h0]; decide
+    · rw [hs] at hm; exact (hnz kv hm).2
+  exact (hfind e ix (encodes_of_parse e input ix hp k t hlen hslots hb hdr tail hhdr hin) id hid).1
 
 /-- **Known finding C17-1 (witness).**  The hypothesis `id ≠ 0` above cannot be dropped: 0 is the
 unused-slot marker, and `find` tests "signature matches" before "slot unused", so the key 0 —
@@ -228,6 +253,24 @@ theorem hash_iter_exact (e : Endian) (bc : Nat) (groups : List (List Nat)) (ix :
     (hwf : WellFormed bc groups) (henc : EncodesTable e groups ix) (hbc : 0 < bc) (hash : Nat) :
     ix.findByHash e hash = .ok ((scanHash hash groups.flatten).map .item) :=
   findByHash_scan e bc groups ix hwf henc hbc hash
+
+open Gimli.Names in
+/-- **`name_entries(i)` returns exactly the entries of name `i`.**  If slot `i` of the
+entry-offset array points at a series of entries in the pool — each entry the ULEB abbreviation
+code of an abbreviation that `NameAbbreviations::get` resolves to itself, followed by one value
+per attribute specification in a form of the supported set (flag, flag_present, data1/2/4/8,
+udata, ref1/2/4/8, ref_udata) that fits the form — terminated by a 0 code, then draining the
+entry iterator yields the exhaustive scan of the series: every entry, in order, at its pool
+offset, with the abbreviation's tag and the attribute list `(name, form, value)`. -/
+theorem name_entries_exact (e : Endian) (ix : Names.Index) (offsets : List Nat) (i : Nat)
+    (hi : i < offsets.length)
+    (hoff : ix.entryOffsetData = offsets.flatMap fun v => toBytes e ix.format.wordSize v)
+    (hb : ∀ v, v ∈ offsets → v < 2 ^ (8 * ix.format.wordSize))
+    (pre post : Bytes) (es : List AbsEntry) (hes : ∀ en, en ∈ es → en.Ok ix.abbrevs)
+    (hpool : ix.entryPool = pre ++ (encSeries e es ++ 0 :: post)) (hoi : offsets[i] = pre.length) :
+    ix.nameEntries e i = .ok (scanSeries e pre.length es) :=
+  nameEntries_series e ix offsets i hi hoff (fun v hv => by rw [pow256]; exact hb v hv)
+    pre post es hes hpool hoi
 
 /-! ## `.debug_pubnames` / `.debug_pubtypes` -/
 
